@@ -106,9 +106,9 @@ class Ctx:
     def shape(self, instance, body, msg, line=None, details=None, props=None):
         return self._add('shape', instance, body, 'expected shape not found: ' + msg, line, details, props)
 
-    def check(self, cond, instance, body, ok_msg, fail_msg, line=None, details=None, props=None):
+    def check(self, cond, instance, body, ok_msg, fail_msg, line=None, details=None, props=None, nontrivial=True):
         if cond:
-            return self.ok(instance, body, ok_msg, line, details, props)
+            return self.ok(instance, body, ok_msg, line, details, props, nontrivial)
         return self.fail(instance, body, fail_msg, line, details, props)
 
 
